@@ -6,8 +6,10 @@
 import LW.Driver.Common
 import LW.Driver.Circuit
 import LW.Driver.Fock
+import LW.Driver.Sampling
 import LW.Driver.C18
 import LW.Driver.C17
+import LW.Driver.C19
 
 open Lean LW.Driver
 
@@ -16,8 +18,10 @@ def handlers : List (String × (Json → R Json)) :=
   [("ping", fun _ => pure (Json.str "pong")),
    ("circ", handleCirc),
    ("fock", handleFock),
+   ("samp", handleSamp),
    ("sv", handleC18),
-   ("res", handleC17)]
+   ("res", handleC17),
+   ("display", handleC19)]
 
 def dispatch (req : Json) : R Json := do
   let op ← asStr (← fld req "op")
